@@ -284,9 +284,10 @@ func runCase(r *vk.Run, p *world.Produced, c Case) []bool {
 // Run is the check entry point.
 func Run(r *vk.Run) {
 	world.Silence()
-	r.Rule = "exhaustive enumeration: chain shape x delivery mode (in order | everything cached, then the missing first header applies all blocks in one cascade) x block being applied x crash after durable write k = 0..W (W found by running until the step completes) x second crash k2 during re-application after the restart (depth 2) x redelivery (remaining parts in order | everything again | everything shuffled), then the complete chain placed on DA; W2 after every event, DA-included height must reach the tip. non-trivial = a crash point strictly inside an application; distinct by (shape, mode, block, k, k2, redelivery)"
+	r.Rule = "exhaustive enumeration: chain shape x delivery mode (in order | everything cached, then the missing first header applies all blocks in one cascade) x block being applied x crash after durable write k = 0..W (W found by running until the step completes) x second crash k2 during re-application after the restart (depth 2) x redelivery (remaining parts in order | everything again | everything shuffled), then the complete chain placed on DA; W2 after every event, DA-included height must reach the tip. non-trivial = a crash point strictly inside an application; distinct by (shape, mode, block, k, k2, redelivery). Second family, full node fed by the DA layer alone (P2P stores empty, nothing injected): chain shape x DA layout (headers ahead of data by 1 | 2 | all blocks, data ahead of headers likewise, one block per DA height, everything in reverse, seeded random placements) x DA height being scanned x crash after durable write k (writes of the sync and the inclusion loop) x on short chains a second crash k2 of the restarted process; after the restart the rest of the layout appears on the DA layer, the scan runs to its end and the node must be at the proposer's tip with the proposer's blocks; distinct by (shape, layout, DA height, k, k2)"
 	r.Assume("MemDS double: Put/Batch.Commit atomic and durable once returned; a crash loses in-memory caches (no cache files written)")
 	r.Assume("the P2P/DA layers still have the data after the crash (redelivery is possible)")
+	r.Assume("DA-only family: every DA height stays readable for ever and in the same order; the node is free to scan from wherever it likes after a restart")
 	ctx := context.Background()
 	keys := world.NewKeys("proposer")
 	shapes := []string{"xx", "ex", "xe", "xxx", "eex", "xee", "xexx"}
